@@ -1268,3 +1268,6 @@ from harness import storeinit as _si                    # noqa: E402
 from harness.mixins import add_family as _add_family    # noqa: E402
 _add_family(globals(), _df, 'dynflow', lambda case, impl: _df.oracle(case, impl, who=('values', 'published')), share=0.06)
 _add_family(globals(), _si, 'storeinit', _si.oracle, share=0.03)
+# schema overrides reach exactly the process they name (processes sharing a schema object or a parameter dictionary)
+from harness import schemaleak as _sl                   # noqa: E402
+_add_family(globals(), _sl, 'schemaleak', _sl.oracle, share=0.03)
